@@ -337,6 +337,12 @@ func execPair(t *testing.T, w *W) *hx.Outcome {
 		return o
 	}
 	if alone.String() != after.String() {
+		// a leak is a deterministic function of (A, B): it must show again in another fresh process
+		again, err := runChild(w.A, w.Src)
+		if err != nil || again.String() != after.String() {
+			o.Discarded = true
+			return o
+		}
 		// name the first probe line that differs
 		what := "control-flow"
 		la, lb := strings.Split(alone.Out, "\n"), strings.Split(after.Out, "\n")
@@ -406,7 +412,7 @@ func loadCorpusAll() []string {
 }
 
 // scripts that would stall or need a network/terminal when run as program A
-var noChildRe = regexp.MustCompile(`(?i)->run\(|new\s+Server|Signal::|readline|STDIN|sleep\s*\(\s*[1-9]\d|curl_|fsockopen|proc_open|Loop::`)
+var noChildRe = regexp.MustCompile(`(?i)->run\(|new\s+Server|Signal|posix_|pcntl_|readline|STDIN|sleep\s*\(\s*[1-9]\d|curl_|fsockopen|proc_open|Loop::`)
 
 func loadCorpus() []string {
 	if corpus != nil {
